@@ -89,14 +89,14 @@ def async_seq_spawn(text, owned_senders=(), **_):
 
 
 @rule('async-seq-chan')
-def async_seq_chan(text, senders=('sender',), receivers=('receiver',), callees=(), **_):
+def async_seq_chan(text, senders=('sender',), receivers=('receiver',), callees=(), ghost_args=(), **_):
     """async-seq (c), state-passing form of the shared channel: the state that `Sender`s and the `Receiver` of one
     `tokio::sync::mpsc` channel share (the queue, the number of live senders) becomes the explicit parameter `ch`:
     `mpsc::channel(N)` -> `mpsc::channel(N, ch)` (initialises it), `S.send(V)` -> `S.send(V, ch)`, `S.clone()` -> `S.clone(ch)`,
     `drop(S)` -> `drop(S, ch)` for the sender variables S, `R.recv()` -> `R.recv(ch)` for the receiver variables R, and `ch` is
-    appended to the calls of the listed callees that take the receiver. Nothing else is touched."""
+    appended to the calls of the listed callees that take the receiver (followed by the callee's ghost out-parameters
+    `ghost_args`, see rule `c36c-ghost-params`). Nothing else is touched."""
     n = 0
-    done = set()
     while True:
         toks = L.code_tokens(text)
         T = _T(text, toks)
@@ -105,7 +105,7 @@ def async_seq_chan(text, senders=('sender',), receivers=('receiver',), callees=(
             if toks[i][0] != 'ident' or T(i + 1) != '(':
                 continue
             c = L.match_close(text, toks, i + 1)
-            if T(c - 1) == 'ch':
+            if T(c - 1) == 'ch' or (ghost_args and T(c - 1) == ghost_args[-1]):
                 continue
             name = T(i)
             is_method = T(i - 1) == '.'
@@ -124,10 +124,11 @@ def async_seq_chan(text, senders=('sender',), receivers=('receiver',), callees=(
             if not ok:
                 continue
             empty = (c == i + 2)
+            add = 'ch' + (''.join(', ' + g for g in ghost_args) if (not is_method and name in callees) else '')
             if T(c - 1) == ',':
-                hit = (toks[c - 1][2], toks[c][1], ' ch')           # multi-line call with a trailing comma
+                hit = (toks[c - 1][2], toks[c][1], ' ' + add)           # multi-line call with a trailing comma
             else:
-                hit = (toks[c][1], toks[c][1], 'ch' if empty else ', ch')
+                hit = (toks[c][1], toks[c][1], add if empty else ', ' + add)
             break
         if not hit:
             break
@@ -144,7 +145,7 @@ MSG = '(FileId, Option<Vec<Diagnostic>>)'
 OUTPUT_RESULT = {
     'src': {'file': OUT, 'kind': 'fn', 'name': 'output_result'},
     'rules': ['async-seq-fn', ('async-seq-await', {'count': 1}), ('async-seq-chan', {'count': 1}),
-              'c36c-chan-param', 'c36-closure-contract'],
+              'c36c-ghost-params', 'c36-closure-contract'],
     'attrs': '#[verifier::spinoff_prover]\n#[verifier::loop_isolation(false)]',
     'ret': 'r',
     'requires': '''
@@ -159,6 +160,9 @@ OUTPUT_RESULT = {
     'ensures': '''
             // every message of the channel was received, each once, in order; none appeared or vanished
             final(ch).sent@ == old(ch).sent@ && final(ch).read@ == final(ch).sent@.len() /*@C36.channel.every-message-consumed*/,
+            // the report: when `finish()` is called the writer has been handed, for every message that carries diagnostics, exactly
+            // the filtered diagnostics, once, in channel order, under the message's own file id; nothing else
+            final(rep)@ == reports(old(ch).unread(), severity_filter) /*@C36.report.every-message-once*/,
             // exit status: non-zero exactly when a REPORTED diagnostic (after the filter) of some message is an error,
             // or a warning under --warnings-as-errors
             (r != 0) == any_reported_err(old(ch).unread(), severity_filter, warnings_as_errors) /*@C36.exit.nonzero-iff-reported-error*/''',
@@ -174,8 +178,6 @@ OUTPUT_RESULT = {
                 has_error == any_reported_err(msgs.take(count as int), severity_filter, warnings_as_errors) /*@C36.exit.flag.inv*/,
                 error_count <= total_diags(msgs.take(count as int)), warning_count <= total_diags(msgs.take(count as int)),
                 info_count <= total_diags(msgs.take(count as int)), hint_count <= total_diags(msgs.take(count as int)),
-            ensures
-                ch.read@ == ch.sent@.len() /*@C36.channel.every-message-consumed.loop-exit*/,
             decreases ch.sent@.len() - ch.read@''',
         1: '''invariant
                 has_error == (he0 || exists|i: int| 0 <= i < it.index@ && is_err(#[trigger] diagnostics@[i], warnings_as_errors)) /*@C36.exit.flag.inner-inv*/,
@@ -183,7 +185,7 @@ OUTPUT_RESULT = {
                 info_count <= c0.2 + it.index@, hint_count <= c0.3 + it.index@,''',
     },
     'proof': [
-        (r'(?<![\w])count \+= 1;', 'before', '''
+        (r'while let Some\(\(file_id, diagnostics\)\) = receiver\.recv\(ch\) \{', 'after', '''
                 let ghost k = (ch.read@ - read0 - 1) as int;
                 proof {
                     assert(msgs[k] == sent0[read0 + k]);
@@ -212,7 +214,7 @@ OUTPUT_RESULT = {
                     lemma_reports_step_some(msgs, k, severity_filter);
                     lemma_err_step(msgs, k, severity_filter, warnings_as_errors);
                 }'''),
-        (r'if count == total_count \{', 'before', '''
+        (r'if count [^{;]*total_count \{', 'before', '''
                 proof {
                     if msgs[k].1 is None {
                         lemma_reports_step_none(msgs, k, severity_filter);
@@ -221,11 +223,11 @@ OUTPUT_RESULT = {
                 }'''),
         (r'writer\.finish\(\);', 'before', '''
                 proof {
+                    // both exits of the loop (channel closed and empty / `count == total_count`) leave nothing unread
+                    assert(ch.read@ == ch.sent@.len()) /*@C36.channel.every-message-consumed.loop-exit*/;
                     assert(msgs.take(count as int) =~= msgs);
-                    // the report: when the writer is finished it has been handed, for every message of the channel that carries
-                    // diagnostics, exactly the filtered diagnostics, once, in channel order, under the message's own file id
-                    assert(writer.log() == reports(msgs, severity_filter)) /*@C36.report.every-message-once*/;
-                }'''),
+                }
+                *rep = Ghost(writer.log());'''),
     ],
 }
 
@@ -233,10 +235,10 @@ RUN_CHECK = {
     'src': {'kind': 'slice', 'name': 'run_check_channel', 'in': {'file': LIB, 'kind': 'fn', 'name': 'run_check'},
             'from': r'let db = analysis\.compilation\.get_db\(\);\s*let need_check_files = ',
             'to': r'cmd_args\.severity,\s*\)\s*\.await;',
-            'head': 'pub fn run_check_channel(analysis: EmmyLuaAnalysis, main_path: PathBuf, cmd_args: CmdArgs, ch: &mut Chan<%s>) -> i32' % MSG,
+            'head': 'pub fn run_check_channel(analysis: EmmyLuaAnalysis, main_path: PathBuf, cmd_args: CmdArgs, ch: &mut Chan<%s>, rep: &mut Ghost<Seq<(FileId, Seq<Diagnostic>)>>) -> i32' % MSG,
             'tail': 'exit_code'},
-    'rules': [('async-seq-await', {'count': 2}), ('async-seq-spawn', {'owned_senders': ('sender',), 'count': 1}),
-              ('async-seq-chan', {'callees': ('output_result',), 'count': 5})],
+    'rules': ['async-seq-await', ('async-seq-spawn', {'owned_senders': ('sender',), 'count': 1}),
+              ('async-seq-chan', {'callees': ('output_result',), 'ghost_args': ('rep',)})],
     'attrs': '#[verifier::spinoff_prover]\n#[verifier::loop_isolation(false)]',
     'ret': 'r',
     'requires': '''
@@ -249,13 +251,18 @@ RUN_CHECK = {
             // exactly one message per main-workspace file id, carrying that id and diagnose_file's result for it
             exists|ids: Seq<FileId>| is_main_ids(index_of(&analysis).file_module_map@, ids)
                 && final(ch).sent@ == messages_for(&analysis, ids) /*@C36.channel.one-message-per-main-file*/,
+            // hence the report: for every main-workspace file (each once) for which diagnose_file returned diagnostics, exactly its
+            // filtered diagnostics under its own file id; nothing else
+            exists|ids: Seq<FileId>| is_main_ids(index_of(&analysis).file_module_map@, ids)
+                && final(rep)@ == reports(messages_for(&analysis, ids), cmd_args.severity) /*@C36.report.every-main-file-once*/,
             final(ch).read@ == final(ch).sent@.len() /*@C36.channel.every-message-consumed*/,
             (r != 0) == any_reported_err(final(ch).sent@, cmd_args.severity, cmd_args.warnings_as_errors) /*@C36.exit.nonzero-iff-reported-error*/''',
+    'body_first': 'proof { assert(index_of(&analysis) == analysis.compilation.db().module_index()); }',
     'iter_names': {0: 'it'},
     'loops': {0: '''invariant
                 ch.wf(), ch.read@ == 0, sender.chan() == ch.id@, receiver.chan() == ch.id@, ch.live@ == 1,
-                it.elements == need_check_files@,
-                ch.sent@ == messages_for(&*analysis, need_check_files@.take(it.index@ as int)) /*@C36.channel.one-message-per-main-file.inv*/,'''},
+                it.seq() =~= need_check_files@ /*@C36.channel.one-task-per-selected-file.inv*/,
+                ch.sent@ =~= messages_for(&*analysis, need_check_files@.take(it.index@ as int)) /*@C36.channel.one-message-per-main-file.inv*/,'''},
     'proof': [
         (r'let sender = sender\.clone\(ch\);', 'before', '''
                 proof { lemma_messages_step(&*analysis, need_check_files@, it.index@ as int); }'''),
@@ -264,7 +271,11 @@ RUN_CHECK = {
                     assert(need_check_files@.take(need_check_files@.len() as int) =~= need_check_files@);
                     assert(ch.unread() =~= ch.sent@);
                     assert(is_main_ids(index_of(&*analysis).file_module_map@, need_check_files@));
+                    // the other preconditions of `output_result`, each under its own name (the call below can then only fail on the count)
+                    assert(ch.live@ == 0) /*@C36.channel.closed-after-last-task*/;
+                    assert(ch.wf() && receiver.chan() == ch.id@ && total_diags(ch.unread()) <= usize::MAX);
                 }'''),
+        (r'let exit_code = output_result\(', 'after', '/*@C36.channel.total-matches-messages*/'),
     ],
 }
 
@@ -279,7 +290,24 @@ MAIN_IDS = {
     'ensures': '''
             // exactly the files of `file_module_map` whose workspace is the main workspace, each once (order unspecified)
             is_main_ids(self.file_module_map@, r@) /*@C36.files.exactly-main-workspace*/''',
+    'iter_names': {0: 'it'},
+    'loops': {0: '''invariant
+                it.seq().unref().to_set() == self.file_module_map@.values(), it.seq().len() == self.file_module_map@.dom().len(),
+                file_ids@ == main_of(it.seq().unref().take(it.index@ as int)) /*@C36.files.exactly-main-workspace.inv*/,
+                it.index@ == it.seq().len() ==> is_main_ids(self.file_module_map@, file_ids@) /*@C36.files.exactly-main-workspace.at-exit*/,'''},
+    'proof': [
+        (r'for module_info in', 'before', '''
+                proof { lemma_main_ids_empty(self.file_module_map@); }'''),
+        (r'if module_info\.workspace_id [!=]= WorkspaceId::MAIN \{', 'before', '''
+                proof {
+                    assert(*module_info == it.seq().unref()[it.index@ as int]);
+                    lemma_main_of_step(it.seq().unref(), it.index@ as int);
+                }'''),
+        (r'file_ids\.push\(module_info\.file_id\);\s*\}', 'after', '''
+                proof { lemma_main_ids_last(self.file_module_map@, it.seq().unref(), it.index@ as int); }'''),
+    ],
 }
+
 
 UNIT = {
     'items': {
@@ -313,16 +341,31 @@ UNIT = {
                          'rules': ['c36c-writer-trait-contract'], 'pub': False},
         'output_result': OUTPUT_RESULT,
         'run_check::channel': RUN_CHECK,
+        'run_check::exit': {
+            'src': {'kind': 'slice', 'name': 'run_check_exit', 'in': {'file': LIB, 'kind': 'fn', 'name': 'run_check'},
+                    'from': r'if exit_code != 0 \{', 'to': r'Ok\(\(\)\)',
+                    'head': 'pub fn run_check_exit(exit_code: i32) -> Result<(), BoxedError>', 'tail': ''},
+            'rules': ['c36c-error-value-opaque', 'c36c-eprintln-drop'],
+            'ret': 'r',
+            'ensures': 'r is Err <==> exit_code != 0 /*@C36.exit.err-iff-nonzero-code*/'},
     },
     'extra_rules': [
+        ('c36c-error-value-opaque', r'Err\(format!\("exit code: \{\}", exit_code\)\.into\(\)\)', 'Err(vx_boxed_error())',
+         '`Err(format!(..).into())` -> `Err(vx_boxed_error())`: the error VALUE (a message boxed as `dyn Error + Sync + Send`, a type outside '
+         'Verus\' dialect) is opaque; only Ok/Err is under contract. Formatting an i32 does not panic'),
+        ('c36c-eprintln-drop', r'eprintln!\("Check finished"\);', '',
+         '`eprintln!("lit");` dropped: a line on stderr is no part of any claimed clause'),
         ('c36c-const-semicolon', r'\}\s*$', '};',
          'extractor artefact: a `const X: T = T { .. };` item is cut at the closing brace of its initialiser; the terminating `;` is restored'),
         ('c36-closure-contract', r'\|diagnostic\| severity_filter\.allows\(diagnostic\.severity\)',
          '|diagnostic: &Diagnostic| -> (b: bool) ensures b == passes(Some(severity_filter), *diagnostic) { severity_filter.allows(diagnostic.severity) }',
          'contract overlay on a closure (same rule as unit c36_exit): parameter type, named result and `ensures` are added, the body '
          'expression is kept verbatim and Verus checks the ensures against it'),
-        ('c36c-chan-param', r'mut receiver: DiagnosticReceiver,', 'mut receiver: DiagnosticReceiver, ch: &mut Chan<%s>,' % MSG,
-         'async-seq (c), callee side: the fn that takes the Receiver also takes the explicit channel state `ch`'),
+        ('c36c-ghost-params', r'(severity_filter: Option<DiagnosticSeverityFilter>,)(\s*\) -> i32)',
+         r'\1 ch: &mut Chan<%s>, rep: &mut Ghost<Seq<(FileId, Seq<Diagnostic>)>>,\2' % MSG,
+         'async-seq (c), callee side: the fn that takes the Receiver also takes the explicit channel state `ch`; and a ghost OUT-parameter '
+         '`rep` (specification only, erased): the overlay stores in it what the locally created writer had been handed when `finish()` is '
+         'called, so that the report can be named in the postcondition'),
         ('c36c-writer-trait-contract',
          r'trait OutputWriter \{\s*fn write\(&mut self, db: &DbIndex, file_id: FileId, diagnostics: Vec<Diagnostic>\);\s*fn finish\(&mut self\);\s*\}',
          '''pub trait OutputWriter {
@@ -338,9 +381,76 @@ UNIT = {
     ],
     'allow': [r'external_body', r'uninterp',
               r'assume_specification<T, A: Allocator, F: FnMut\(&T\) -> bool>\[ Vec::<T, A>::retain \]'],
-    'min_obligations': 10,
-    'trusted': [],
-    'not_covered': [],
-    'samples': [],
-    'mutants': [],
+    'min_obligations': 30,
+    'trusted': [
+        'rule family async-seq = the SEQUENTIAL SCHEDULE of the async text: (a) `async fn`/`.await` are plain fns/calls; (b) '
+        '`tokio::spawn(async move { BODY })` runs BODY to completion, exactly once, at the spawn point and then drops the moved-in sender '
+        '(the drop is written out by the rule); (c) the state shared by the channel handles is the explicit ghost parameter `ch` '
+        '(sent log, read index, live-sender count). ABSTRACTED AWAY: task scheduling and interleaving (every spawned task is assumed to run '
+        'its body to completion exactly once before the receiver observes the channel closed); a task that panics or is never polled '
+        '(runtime shutdown, cancellation of run_check\'s own future) is not modelled; the capacity 100 / back-pressure is not modelled '
+        '(only `buffer > 0`, tokio\'s panic condition, is checked). The clauses proved are about WHICH messages are sent and consumed, not when',
+        'tokio mpsc contract as stated on the shims (tokio docs): messages are received in send order, each once; `recv` returns None only '
+        'when the queue is empty and every Sender is dropped; with the queue empty and a sender alive it waits (precondition '
+        'C36.channel.recv-cannot-wait-forever: in the sequential schedule that wait would never end); `send` succeeds while the receiver '
+        'is alive — in the sequential schedule the receiver outlives every task, so `send(..).unwrap()` does not panic; in the real '
+        'schedule this holds because output_result returns only after it has consumed every message (proved here)',
+        '`EmmyLuaAnalysis::diagnose_file` is modelled as a FUNCTION sp_diagnose(analysis, file_id) of the analysis and the file id '
+        '(deterministic, fresh never-cancelled token); nothing is assumed about its value',
+        'the three OutputWriter implementations are abstracted to the ghost log of their `write` calls (contract overlay on the trait, '
+        'constructors return an empty log); what each does with a call is unit c36_writers. `Box<dyn OutputWriter>` dispatch is Verus\' dyn support',
+        'ghost out-parameter `rep` of output_result (rule c36c-ghost-params, specification only): carries the writer log at `finish()` into the postcondition',
+        'Vec::retain: std doc contract as assume_specification (same text as unit c36_exit); lsp_types::DiagnosticSeverity / Diagnostic transcribed (as in c36_exit)',
+        'HashMap::values: vstd\'s specification (as many items as keys, the same set of values) + obeys_key_model::<FileId>() (derived Hash/Eq of a u32 newtype) as precondition `keys_ok`',
+        'index invariant ASSUMED as a precondition of get_main_workspace_file_ids and of the run_check slice: every ModuleInfo is stored under its own '
+        'file id (`file_module_map[k].file_id == k`; the fn pushes `module_info.file_id`, not the key). It is a conjunct of unit c10_module\'s `module_wf`; '
+        'note that `get_module_mut` hands out `&mut ModuleInfo` with a pub `file_id`, so privacy alone does not protect it',
+        'input assumption: the four usize tallies cannot overflow (total number of diagnostics of all messages <= usize::MAX), as in unit c36_exit',
+        'opaque shims with unconstrained results: PathBuf, DbIndex/LuaCompilation accessors (get_db/get_module_index return THE db / THE module index), '
+        'CancellationToken::new, TerminalDisplay::{new, print_summary}, Arc (vstd)',
+        'the process exit status: `main` returns run_check\'s Result and Rust\'s `Termination for Result` maps Err to a non-zero status (std); the error VALUE is opaque (rule c36c-error-value-opaque)',
+    ],
+    'not_covered': [
+        'real concurrency of the tokio runtime (see the async-seq entry of `trusted`): interleavings, task panics (a panicking diagnose_file is swallowed '
+        'by the dropped JoinHandle: its file silently sends no message), runtime shutdown, back-pressure',
+        'run_check before the slice (argument handling, workspace loading: an Err there also gives a non-zero exit) ',
+        'that the module index puts exactly the files under the first workspace root into WorkspaceId::MAIN (add_module_by_path / extract_module_path)',
+        'the summary line (print_summary) and the writers\' formatting (unit c36_writers)',
+    ],
+    'samples': [
+        'get_main_workspace_file_ids: is_main_ids(file_module_map, r) — r has no duplicates and contains f  <==>  f is a key whose ModuleInfo.workspace_id == MAIN',
+        'run_check slice: exists ids. is_main_ids(index, ids) && ch.sent == [(id, diagnose_file(id)) for id in ids]  (one message per main file, nothing else)',
+        'output_result requires total_count == |unread messages| (a caller passing len()/32 fails C36.channel.total-matches-messages) and live senders == 0',
+        'output_result ensures read == |sent| (every message consumed once, in order), report == reports(messages, filter), (r != 0) == any_reported_err(messages, filter, wae)',
+        'run_check slice: report == reports([(id, diagnose_file(id)) for id in ids], --severity), (exit_code != 0) == a reported diagnostic is an error / warning under --warnings-as-errors',
+        'run_check tail: returns Err  <==>  exit_code != 0',
+    ],
+    'mutants': [
+        # the seeded defect C36_2 reduced to its core: the completion count is the number of 32-file batches, the messages are per file
+        {'name': 'seeded-count-div-32', 'item': 'run_check::channel',
+         'pattern': r'need_check_files\.len\(\),', 'repl': 'need_check_files.len() / 32,', 'expect': r'C36\.channel\.total-matches-messages'},
+        {'name': 'break-one-message-early', 'item': 'output_result',
+         'pattern': r'if count == total_count \{', 'repl': 'if count + 1 == total_count {', 'expect': r'C36\.channel\.every-message-consumed'},
+        {'name': 'count-not-incremented', 'item': 'output_result',
+         'pattern': r'\n\s*count \+= 1;', 'repl': '', 'expect': r'C36\.channel\.(count-counts-consumed|recv-cannot-wait-forever)'},
+        {'name': 'spawn-skips-first-file', 'item': 'run_check::channel',
+         'pattern': r'for file_id in need_check_files\.clone\(\) \{',
+         'repl': 'let mut vx = need_check_files.clone(); if vx.len() > 0 { vx.remove(0); } for file_id in vx {',
+         'expect': r'C36\.channel\.(one-task-per-selected-file|one-message-per-main-file|total-matches-messages)'},
+        {'name': 'original-sender-not-dropped', 'item': 'run_check::channel',
+         'pattern': r'\n\s*drop\(sender\);', 'repl': '', 'expect': r'C36\.channel\.closed-after-last-task'},
+        {'name': 'message-sent-twice', 'item': 'run_check::channel',
+         'pattern': r'sender\.send\(\(file_id, diagnostics\)\)\.await\.unwrap\(\);',
+         'repl': 'sender.send((file_id, None)).await.unwrap(); sender.send((file_id, diagnostics)).await.unwrap();',
+         'expect': r'C36\.channel\.(one-message-per-main-file|total-matches-messages)'},
+        {'name': 'write-skipped', 'item': 'output_result',
+         'pattern': r'writer\.write\(db, file_id, diagnostics\);', 'repl': 'if false { writer.write(db, file_id, diagnostics); }', 'expect': r'C36\.report'},
+        {'name': 'exit-inverted', 'item': 'output_result',
+         'pattern': r'if has_error \{ 1 \} else \{ 0 \}', 'repl': 'if has_error { 0 } else { 1 }', 'expect': r'C36\.exit\.nonzero-iff-reported-error'},
+        {'name': 'err-on-zero', 'item': 'run_check::exit',
+         'pattern': r'exit_code != 0', 'repl': 'exit_code > 1', 'expect': r'C36\.exit\.err-iff-nonzero-code'},
+        {'name': 'selects-non-main-files', 'item': 'LuaModuleIndex::get_main_workspace_file_ids',
+         'pattern': r'module_info\.workspace_id == WorkspaceId::MAIN', 'repl': 'module_info.workspace_id != WorkspaceId::MAIN',
+         'expect': r'C36\.files\.exactly-main-workspace'},
+    ],
 }
